@@ -809,10 +809,10 @@ pub fn prop_handler(c: &HandlerCase) -> CaseResult {
             // the driver allows 5 open connections; fill with what it allows
             for i in 0..(*swarm).min(5) {
                 ops.push(WsOp::Open { worker: (i % 3) as u8, v6: false });
-                ops.push(WsOp::Announce { conn: i as u8, t: 0, pid: i as u8, event: 1, left: Some(1), offers: None, answer: None, sticky: false });
+                ops.push(WsOp::Announce { conn: i as u8, t: 0, pid: i as u8, event: 1, left: Some(1), offers: None, answer: None, sticky: false, numwant: 0 });
             }
             ops.push(WsOp::Open { worker: 0, v6: false });
-            ops.push(WsOp::Announce { conn: 0, t: 0, pid: 9, event: 1, left: *left, offers: Some((0..*offers).map(|i| (i % 250) as u8).collect()), answer: Some((0, 0)), sticky: false });
+            ops.push(WsOp::Announce { conn: 0, t: 0, pid: 9, event: 1, left: *left, offers: Some((0..*offers).map(|i| (i % 250) as u8).collect()), answer: Some((0, 0)), sticky: false, numwant: 0 });
             ops.push(WsOp::Scrape { conn: 0, hashes: Some((false, (0..*scrape_hashes).map(|i| (i % 4) as u8).collect())) });
             ops.push(WsOp::Clean { dt: 1000 });
             let case = WsCase { max_offers: *max_offers, max_scrape_torrents: *max_scrape, max_peer_age: 10, max_offer_age: 10, rng_seed: 1, access_mode: 0, ops };
